@@ -13,6 +13,7 @@ import (
 	"strconv"
 	"strings"
 	"sync"
+	"syscall"
 	"time"
 
 	"github.com/Dash-Industry-Forum/livesim2/cmd/cmaf-ingest-receiver/app"
@@ -388,7 +389,7 @@ type xmlST struct {
 	} `xml:"SegmentTimeline"`
 }
 type xmlRepr struct {
-	ID string  `xml:"id,attr"`
+	ID string `xml:"id,attr"`
 	ST *xmlST `xml:"SegmentTemplate"`
 }
 
@@ -424,7 +425,7 @@ type result struct {
 	uploads  int
 	tuned    bool
 	shifted  bool
-	fidelity int // 0 not compared, 1 equal, -1 different
+	fidelity int        // 0 not compared, 1 equal, -1 different
 	obs      [][2]int64 // per media upload: stored number and first tfdt (absolute; -1 if nothing readable was stored)
 	fidNote  string
 	err      error
@@ -565,8 +566,13 @@ func (r *runner) run(idx int, sc *scenario) (res result) {
 			if err != nil {
 				continue
 			}
-			// a file that is written again gets a new modification time (ns resolution)
-			m[n] = fmt.Sprintf("%d/%d", info.Size(), info.ModTime().UnixNano())
+			// a file that is written again gets a new modification time - but the kernel stamps files with a coarse clock
+			// (one tick), so two writes within a tick look alike; a file replaced by rename has a new inode
+			ino := uint64(0)
+			if st, ok := info.Sys().(*syscall.Stat_t); ok {
+				ino = st.Ino
+			}
+			m[n] = fmt.Sprintf("%d/%d/%d", info.Size(), info.ModTime().UnixNano(), ino)
 		}
 		return m
 	}
@@ -630,6 +636,18 @@ func (r *runner) run(idx int, sc *scenario) (res result) {
 				}
 			}
 			trs[i].seen = now
+		}
+		if hk["have"] == true {
+			// the same name stored again with the same size within one clock tick: name the file the channel goroutine
+			// reported (its content is judged like any other stored file)
+			own := false
+			for _, nf := range changed {
+				own = own || nf.track == u.track
+			}
+			name := fmt.Sprintf("%d%s", toI64(lastHook["seqNr"]), t.ext)
+			if _, ok := trs[u.track].seen[name]; ok && !own {
+				changed = append(changed, newFile{u.track, name})
+			}
 		}
 		file := map[string]any{"found": false, "nchanged": len(changed), "ownDir": false, "frs": []any{}}
 		res.obs = append(res.obs, [2]int64{-1, -1})
@@ -812,7 +830,6 @@ func isYearStart(s int64) bool {
 	t := time.Unix(s, 0).UTC()
 	return t.Month() == 1 && t.Day() == 1 && t.Hour() == 0 && t.Minute() == 0 && t.Second() == 0
 }
-
 
 func mpdEvent(sc *scenario, trs []trackRun, md *xmlMPD) tr.E {
 	ast0, astc := int64(big), int64(big)
